@@ -394,9 +394,41 @@ def gen_enum(prefix, tier, rng, maxv, pads):
     return cases, dict(dist)
 
 
+def enum_monotone(n, leaves, memo):
+    """negation-free, constant-free trees with exactly n nodes, And/Or of arity 2..3"""
+    if n in memo: return memo[n]
+    out = []
+    if n == 1:
+        out = list(leaves)
+    else:
+        for ar in (2, 3):
+            for parts in gen.compositions(n - 1, ar):
+                for kids in itertools.product(*[enum_monotone(p, leaves, memo) for p in parts]):
+                    out.append(gen.A(kids)); out.append(gen.O(kids))
+    memo[n] = out
+    return out
+
+
 def gen_C09(tier, rng):
     cases, dist = gen_enum("c09", tier, rng, 3 if tier == "quick" else 4, True)
     n = len(cases)
+    def add_exprs(es, tag, with_tb):
+        nonlocal n
+        for k in range(0, len(es), 20):
+            c = Case("c09_x%d" % n); n += 1
+            for e in es[k:k + 20]:
+                r0 = c.r("expr " + pe(e)); c.q("enum %d" % r0)
+                if with_tb:
+                    r1 = c.r("conv T %d" % r0); c.q("enum %d" % r1); r2 = c.r("conv B %d" % r0); c.q("enum %d" % r2)
+            cases.append(c.done("%s_%d" % (tag, k), True)); dist[tag] = dist.get(tag, 0) + len(es[k:k + 20])
+    # every small expression tree: syntactic shapes in which a mentioned variable is absorbed or cancelled
+    memo = {}
+    small = [e for s_ in range(1, 5) for e in gen.enum_trees(s_, LEAVES, 3, memo)]
+    add_exprs(small, "all_trees_le4", False)
+    five = gen.enum_trees(5, LEAVES, 3, memo)
+    add_exprs(rng.sample(five, 3000 if tier == "quick" else len(five)), "trees_5", False)
+    mono = [e for s_ in range(1, (6 if tier == "quick" else 8)) for e in enum_monotone(s_, [gen.L("a"), gen.L("b"), gen.L("c")], {})]
+    add_exprs(mono if len(mono) < 6000 else rng.sample(mono, 6000), "monotone_trees", True)
     for _ in range(60 if tier == "quick" else 600):
         names = gen.NAMES[: rng.randint(4, 7)]
         e = gen.rand_tree(rng, 5, names)
@@ -404,7 +436,7 @@ def gen_C09(tier, rng):
         for r in three_reps(c, e): c.q("enum %d" % r)
         cases.append(c.done(pe(e), True)); dist["random"] = dist.get("random", 0) + 1
     return {"cases": cases, "exhaustive": True, "dist": dist,
-            "rule": "every truth function of <= %d variables in three expression shapes, each also with a declared but inessential input padded in EVERY position of the sorted order (before, between, after), converted to table and diagram; essential_inputs / degree / essential_degree compared with the specification (exists an assignment where flipping changes the value); non-trivial = some declared input is inessential; distinct = function" % (3 if tier == "quick" else 4)}
+            "rule": "every truth function of <= %d variables in three expression shapes, each also with a declared but inessential input padded in EVERY position of the sorted order (before, between, after), converted to table and diagram; every expression tree with <= 4 nodes (sample of 5) and every negation-free constant-free tree up to a size bound over 3 names (absorbed and repeated variables); essential_inputs / degree / essential_degree compared with the specification (exists an assignment where flipping changes the value); non-trivial = some declared input is inessential; distinct = function or tree" % (3 if tier == "quick" else 4)}
 
 
 def gen_C10(tier, rng):
@@ -895,3 +927,28 @@ def gen_C18(tier, rng):
 
 
 GENERATORS.update({"C16": gen_C16, "C17": gen_C17, "C18": gen_C18})
+
+
+# ------------------------------------------------------------------ C20
+def gen_C20(tier, rng):
+    cases = []; dist = collections.Counter()
+    nprog = 250 if tier == "quick" else 4000
+    for n in range(nprog):
+        c = Case("c20_%d" % n)
+        names = gen.NAMES[: rng.randint(2, 5)]
+        kinds = random_program(rng, c, rng.randint(5, 20), names, allow_tb=(n % 4 == 0))
+        # observe everything again at the end, in a shuffled order: enumerations, sat points, text forms
+        order = list(range(len(kinds))); rng.shuffle(order)
+        for i in order:
+            c.q("enum %d" % i); c.q("obs %d" % i)
+            if kinds[i] == "T":
+                c.q("csvdef %d" % i); c.q("render %d %s %s %s" % (i, rng.choice("AMDE"), rng.choice("NCWK"), rng.choice("NCWK"))); c.q("display %d" % i)
+            if kinds[i] == "E": c.q("show %d" % i)
+        for ln in c.lines:
+            if ln.startswith("r "): dist[ln.split()[1]] += 1
+        cases.append(c.done("prog%d" % n, True))
+    return {"cases": cases, "exhaustive": False, "dist": dict(dist),
+            "rule": "random programs as for C15; every instruction and every observation (structure, Debug form, enumerations incl. support order and sat point, CSV / rendered / printed text) is computed twice within one process and again in further separate processes with fresh hash seeds; all must be identical, and the operand registers are observed again after all later instructions, in shuffled order; plus a source scan for interior mutability; non-trivial = all; distinct = program"}
+
+
+GENERATORS.update({"C20": gen_C20})
